@@ -213,7 +213,7 @@ func TestC06(t *testing.T) {
 	r.reset = func(s *apih.Server) { s.TruncateTuples(c06A) }
 
 	// monitor: judge the statements logged while A's requests were served
-	monitor := func(s *apih.Server, path []c04Step, evs []sqlfault.Event) {
+	monitor := func(r *c04Run, s *apih.Server, path []c04Step, evs []sqlfault.Event) {
 		for _, e := range evs {
 			monitored.Add(1)
 			hasA, hasB, bid := false, false, ""
@@ -254,10 +254,10 @@ func TestC06(t *testing.T) {
 		}
 	}
 	r.preOp = func(s *apih.Server) { s.Tap.StartLog() }
-	r.postOp = func(s *apih.Server, path []c04Step) { monitor(s, path, s.Tap.StopLog()) }
+	r.postOp = func(r *c04Run, s *apih.Server, path []c04Step) { monitor(r, s, path, s.Tap.StopLog()) }
 
 	// A-side probes with B-only strings + B's vector
-	judgeB := func(s *apih.Server, path []c04Step) {
+	judgeB := func(r *c04Run, s *apih.Server, path []c04Step) {
 		ca := s.ClientFor(c06A)
 		s.Tap.StartLog()
 		var raw strings.Builder
@@ -283,7 +283,7 @@ func TestC06(t *testing.T) {
 			}
 		}
 		s.Settle()
-		monitor(s, path, s.Tap.StopLog())
+		monitor(r, s, path, s.Tap.StopLog())
 		leakScans.Add(1)
 		if l := c06Leak(raw.String()); l != "" {
 			r.cand(c04Cand{Sig: "leak:B-only-string-in-A-observation", What: fmt.Sprintf("an observation made in network A contains the B-only string %q", l), Path: path, Extra: map[string]any{"observations": raw.String()}})
@@ -325,16 +325,16 @@ func TestC06(t *testing.T) {
 			vecMu.Unlock()
 		}
 	}
-	r.afterStep = func(s *apih.Server, next *refsem.RefStore, path []c04Step, rot int) {
+	r.afterStep = func(r *c04Run, s *apih.Server, next *refsem.RefStore, path []c04Step, rot int) {
 		s.Tap.StartLog()
 		r.shapesAfter(s, next, path, rot) // A's lists equal A's model for every query shape
-		monitor(s, path, s.Tap.StopLog())
-		judgeB(s, path)
+		monitor(r, s, path, s.Tap.StopLog())
+		judgeB(r, s, path)
 	}
-	r.onState = func(s *apih.Server, st *c04State) {
+	r.onState = func(r *c04Run, s *apih.Server, st *c04State) {
 		s.Tap.StartLog()
 		r.panel(s, st) // A's checks / expands see A's writes only
-		monitor(s, st.Path, s.Tap.StopLog())
+		monitor(r, s, st.Path, s.Tap.StopLog())
 	}
 
 	if r.replayMode(t, "C06", pool, nil) {
@@ -343,7 +343,7 @@ func TestC06(t *testing.T) {
 
 	maxDepth := 3
 	if ev.Thorough() {
-		maxDepth = 4
+		maxDepth = 5
 	}
 	res := r.bfs(pool, []*c04State{c04Root(0, nil)}, maxDepth, ev.Deadline(170, 1500))
 
